@@ -31,6 +31,8 @@ for p in $prop "$@"; do
 $r"
 done
 git -C /repo checkout -- . 
+# the evidence files must describe the unchanged tree: run the checks again now that the change is undone
+for p in $prop "$@"; do (cd /verif && timeout 1500 ./check $p >/dev/null 2>&1); done
 echo "$results" > $out/check_output.txt
 python3 - "$prop" "$name" "$needs" "$build" "$with" "$without" "$suite" "$out" <<'PY'
 import json,sys
